@@ -260,6 +260,7 @@ impl Property for C16Prop {
             "cross" => check_cross(case, stats),
             "isolated-code" => check_isolated_code(case, stats),
             "isolated-import" => check_isolated_import(case, stats),
+            "shared-adapter" => check_shared_adapter(case, stats),
             "show" => check_show(case, stats),
             "shared-iterator" => check_shared_iterator(case, stats),
             _ => Verdict::Discard("unknown kind"),
@@ -641,6 +642,75 @@ fn check_show(case: &Json, stats: &mut Stats) -> Verdict {
 /// by one atomic `+=` per pull, so at most n pulls are handed an element, each an element of the array
 /// (a pull as a whole is not atomic: which element it reads, and an IndexOutOfBounds error value when
 /// the cursor is advanced past the end between its check and its read, are not violations).
+/// One iterator adapter (`?` predicate, `? type`, `@`, a chain of them) over a source that hands out
+/// tickets with one atomic `c += 1`, pulled by several threads until it is exhausted: the adapters keep
+/// no state of their own between pulls, so together the threads receive exactly the elements a single
+/// puller receives - none lost, none twice, none that the source never produced.
+fn check_shared_adapter(case: &Json, stats: &mut Stats) -> Verdict {
+    let threads = case["threads"].as_u64().unwrap_or(4) as usize;
+    let n = case["n"].as_u64().unwrap_or(8) as i64;
+    let rounds = case["rounds"].as_u64().unwrap_or(1) as usize;
+    let adapter = case["adapter"].as_str().unwrap_or("filter");
+    let (expr, expected): (&str, Vec<i64>) = match adapter {
+        "filter" => ("source ? (x: int) -> bool { return x % 2 == 0; }", (1..=n).filter(|x| x % 2 == 0).collect()),
+        "map" => ("source @ (x: int) -> int { return x * 10; }", (1..=n).map(|x| x * 10).collect()),
+        "type-filter" => ("source ? int", (1..=n).collect()),
+        "chain" => ("(source ? (x: int) -> bool { return x % 2 == 0; } @ (x: int) -> int { return x * 10; }) ? int", (1..=n).filter(|x| x % 2 == 0).map(|x| x * 10).collect()),
+        _ => ("source", (1..=n).collect()),
+    };
+    let text = format!(
+        "c := mut 0; source := () -> (bool, int) {{ t := c += 1; return (t <= {n}, t); }}; it := {expr}; pull := (j: int) -> int {{ (more, v) := it(); if more {{ return v; }} return -1; }}; pull"
+    );
+    for round in 0..rounds {
+        let pull = match run::run_text(&text, true) {
+            Outcome::Value(Variable::Function(f)) => f,
+            o => return fail("C16:setup", format!("`{text}`: {}", o.short())),
+        };
+        let barrier = Arc::new(Barrier::new(threads));
+        let results: Vec<Result<Vec<i64>, String>> = std::thread::scope(|scope| {
+            let handles: Vec<_> = (0..threads)
+                .map(|_| {
+                    let (pull, barrier) = (pull.clone(), barrier.clone());
+                    scope.spawn(move || {
+                        run::default_budget();
+                        barrier.wait();
+                        let mut got = vec![];
+                        for i in 0..n + 8 {
+                            match call(&pull, i) {
+                                Ret::Int(-1) => break,
+                                Ret::Int(v) => got.push(v),
+                                other => return Err(format!("{other:?}")),
+                            }
+                        }
+                        Ok(got)
+                    })
+                })
+                .collect();
+            handles.into_iter().map(|h| h.join().expect("worker")).collect()
+        });
+        stats.evals(n as u64);
+        let mut all = vec![];
+        for r in results {
+            match r {
+                Err(e) => return fail("C16:shared-adapter:abnormal", format!("workload {case}, round {round}: a pull gave {e}")),
+                Ok(vs) => all.extend(vs),
+            }
+        }
+        all.sort_unstable();
+        if all != expected {
+            let show = |v: &[i64]| if v.len() > 24 { format!("{} elements, first {:?}", v.len(), &v[..24]) } else { format!("{v:?}") };
+            return fail(
+                format!("C16:shared-adapter:{adapter}"),
+                format!("workload {case}, round {round}: {threads} threads pulling `{expr}` over tickets 1..={n} received {} in all; a single puller receives {}", show(&all), show(&expected)),
+            );
+        }
+    }
+    stats.nontrivial(&case.to_string());
+    stats.label("shared adapter pulled by several threads");
+    stats.sample(2, || json!({"workload": case, "program": text}));
+    Verdict::Pass
+}
+
 fn check_shared_iterator(case: &Json, stats: &mut Stats) -> Verdict {
     let threads = case["threads"].as_u64().unwrap_or(4) as usize;
     let n = case["n"].as_u64().unwrap_or(1000) as usize;
@@ -1258,6 +1328,11 @@ pub fn run(session: &Session) -> i32 {
         cases.push(json!({"kind": "isolated-code", "which": which, "threads": 8, "reps": if which < ISOLATED_CODE.len() { session.tier.of(6, 40) } else { session.tier.of(2, 10) }}));
     }
     cases.push(json!({"kind": "isolated-import", "threads": 6, "reps": session.tier.of(3, 20)}));
+    for adapter in ["filter", "map", "type-filter", "chain"] {
+        // long streams (races anywhere) and very short ones (races at the end)
+        cases.push(json!({"kind": "shared-adapter", "adapter": adapter, "threads": 4, "n": 4000, "rounds": session.tier.of(3, 20)}));
+        cases.push(json!({"kind": "shared-adapter", "adapter": adapter, "threads": 4, "n": 8, "rounds": session.tier.of(300, 3000)}));
+    }
     cases.push(json!({"kind": "show", "writers": 4, "readers": 4, "iters": session.tier.of(3000, 30000), "reps": session.tier.of(3, 10)}));
     cases.push(json!({"kind": "shared-iterator", "threads": 8, "n": session.tier.of(4000, 30000), "reps": session.tier.of(4, 20)}));
     for which in 0..CROSS.len() {
